@@ -29,9 +29,22 @@ def verify_steps(root, s, namer, rng, subs, want=('lib', 'keep', 'cli', 'clik'),
                  meta=None):
     """Run verification calls on the tree at root (already projected as s). -> list of records
     (without 'id')."""
-    from . import gem
+    from . import gem, drv_update
     recs = []
     top = os.path.join(root, 'Manifest')
+    # directory listings as the OS gives them, or sorted by name (a directory is then visited right before /
+    # after a sibling whose name begins with its own)
+    order = rng.choice([None, None, 'asc', 'desc'])
+    real_scandir = os.scandir
+    if order:
+        os.scandir = lambda p='.', _r=real_scandir, _v=(order == 'desc'): drv_update.OrderedScandir(_r, p, _v)
+    try:
+        return _verify_steps(root, s, namer, rng, subs, want, lasts, meta, gem, recs, top)
+    finally:
+        os.scandir = real_scandir
+
+
+def _verify_steps(root, s, namer, rng, subs, want, lasts, meta, gem, recs, top):
     for sub in subs:
         for last in lasts:
             base_ev = {'a': 'verify', 'api': '', 'sub': namer.path(sub), 'name': '',
@@ -259,6 +272,53 @@ def one_scenario(args):
             paths = rng.sample(cands, min(len(cands), 3)) if cands else []
             recs += lookup_steps(root, s, namer, rng, paths, meta=meta)
         return recs
+    finally:
+        shutil.rmtree(root, ignore_errors=True)
+
+
+def alias_family(args):
+    """Directed family for C01 / C07 / C16: a directory and a symlink to it side by side (an alias, no loop),
+    the link's name beginning with the directory's name or not; the files are reachable under both names
+    and each name needs its own entries - one of them may be missing under either name (a stray there),
+    a file may be altered; listings sorted ascending / descending / as the OS gives them."""
+    seed, idx, opts = args
+    rng = random.Random('alias-%d-%d' % (seed, idx))
+    root = tlc.scratch_dir('val')
+    try:
+        L = gen.Layout(rng)
+        par = rng.choice(['', 'cat'])
+        pre = par + '/' if par else ''
+        sname = rng.choice(['pkg', 'R', 'dev', 'x y'])
+        lname = rng.choice([sname + '-compat', sname + '2', sname + '.d', 'alias', 'a-' + sname])
+        S, Lk = pre + sname, pre + lname
+        L.dirs = [''] + ([par] if par else []) + [S, S + '/files']
+        hs = rng.choice(gen.HASHSETS[:4])
+        L.mf['Manifest'] = []
+        inner = {'x': b'xx', 'y': b'yyy', 'files/z': b'z'}
+        for rel, data in inner.items():
+            L.files[S + '/' + rel] = data
+        L.files['top'] = b'top'
+        L.add_file_entry('Manifest', 'top', b'top', 'DATA', hs)
+        L.links[Lk] = S
+        skip = rng.choice([None, None, (S, 'y'), (Lk, 'y'), (Lk, 'files/z'), (S, 'x')])
+        for base in (S, Lk):
+            for rel, data in inner.items():
+                if skip == (base, rel):
+                    continue
+                L.add_file_entry('Manifest', base + '/' + rel, data, 'DATA', hs)
+        if rng.random() < 0.5:
+            rng.shuffle(L.mf['Manifest'])
+        L.write(root)
+        muts = []
+        if rng.random() < 0.3:
+            with open(os.path.join(root, S, 'x'), 'ab') as f:
+                f.write(b'!')
+            muts.append({'m': 'alter_size', 'p': S + '/x'})
+        namer = fm.Namer()
+        s = fm.project(root, 'Manifest', namer=namer)
+        meta = {'seed': seed, 'idx': idx, 'alias': [S, Lk], 'skip': skip, 'muts': muts}
+        subs = [''] if rng.random() < 0.7 else ['', rng.choice([S, Lk] + ([par] if par else []))]
+        return verify_steps(root, s, namer, rng, subs, want=opts.get('want', ('lib', 'keep', 'cli', 'clik')), meta=meta)
     finally:
         shutil.rmtree(root, ignore_errors=True)
 
